@@ -157,14 +157,66 @@ func isSystem(a *felt.Felt) bool { return a.Equal(lib.F(1)) || a.Equal(lib.F(2))
 type expectation struct {
 	lines    []string // acceptable projection lines (more than one only where the statement leaves it open)
 	resolved int      // block the id denotes, -1 if none
+	chain    int      // the first `chain` lines are what the chain itself says (the rest: answers of a node that does not hold the item)
 }
 
 func exp1(resolved int, line string) expectation {
 	return expectation{lines: []string{line}, resolved: resolved}
 }
 
-// expect computes the property's answer for a query on an API version.
+// expect computes the property's answer for a query on an API version: what the chain says
+// (expectChain), widened where the node does not HOLD the item any more. A node run with
+// --prune-mode keeps the blocks from `prunedBelow` on. About a block below that (by number or by
+// hash), about its state and about its transactions the statement allows exactly two answers: "not
+// found" — the node does not hold it — or the true data of that very block (a node may keep more than
+// it promises: the pruner leaves the last ten headers, one hash-index entry and the state one block
+// below the floor in place). Anything else — another block's data, an empty transaction list, an
+// index error for an index the block has, an internal error — is a violation. A block whose
+// commitments record was deleted behind the node's back (the fault family) may additionally make
+// the v0.10 block methods, which render the commitments, fail with an internal error.
 func (w *world) expect(q *query, ver string) expectation {
+	e := w.expectChain(q, ver)
+	e.chain = len(e.lines)
+	add := func(line string) {
+		if !e.accepts(line) {
+			e.lines = append(append([]string{}, e.lines...), line)
+		}
+	}
+	if q.nullPos != "" || (q.id != nil && q.id.sem(ver) == "invalid") || e.accepts(errLine(codeInvalidParams)) && len(e.lines) == 1 {
+		return e
+	}
+	if q.id != nil && q.id.sem(ver) != "pending" {
+		if n, ok := w.propResolve(q.id); ok {
+			if n < w.prunedBelow {
+				add(errLine(codeBlockNotFound))
+			}
+			if w.noCommit[n] && ver == "v10" && (q.method == "blockTxHashes" || q.method == "blockTxs" || q.method == "blockReceipts") {
+				add(errLine(codeInternal))
+			}
+		}
+	}
+	switch q.method {
+	case "txByHash", "receipt", "txStatus":
+		if bn, _, found := w.findTx(&q.txHash); found && bn < w.prunedBelow {
+			if q.method == "txStatus" {
+				// not held: the documented fallback to the gateway (a gateway in sync with the
+				// network has not "received" a transaction that is long since in a block: NOT_RECEIVED
+				// is what the stub says by default)
+				f := feederSpec{mode: "says", fin: "notreceived", exec: "none"}
+				if q.feeder != nil {
+					f = *q.feeder
+				}
+				add(expectFeeder(ver, f, q.submitted))
+			} else {
+				add(errLine(codeTxnNotFound))
+			}
+		}
+	}
+	return e
+}
+
+// expectChain: the answer the chain gives (every block of the chain taken as held).
+func (w *world) expectChain(q *query, ver string) expectation {
 	// null where a value is required, and anything that is not a block id of this version, is
 	// refused as invalid params
 	if q.nullPos != "" {
@@ -184,15 +236,15 @@ func (w *world) expect(q *query, ver string) expectation {
 			if q.method == "storage" {
 				base.method = "storageLU"
 			}
-			return w.expect(&base, ver)
+			return w.expectChain(&base, ver)
 		case "either":
-			e := w.expect(&base, ver)
+			e := w.expectChain(&base, ver)
 			if !e.accepts(errLine(codeInvalidParams)) {
 				e.lines = append(append([]string{}, e.lines...), errLine(codeInvalidParams))
 			}
 			return e
 		default:
-			return w.expect(&base, ver)
+			return w.expectChain(&base, ver)
 		}
 	}
 	if q.id != nil && q.id.sem(ver) == "invalid" {
@@ -327,7 +379,7 @@ func (w *world) expect(q *query, ver string) expectation {
 		}
 		sq := *q
 		sq.method = "storage"
-		e := w.expect(&sq, ver)
+		e := w.expectChain(&sq, ver)
 		if e.resolved < 0 {
 			return e
 		}
